@@ -254,7 +254,7 @@ func init() {
 	}
 	core.Registry["C03"].Uses = append(core.Registry["C03"].Uses, core.Use{E: eConcDisjoint, Quick: 80, Thorough: 2000})
 	core.Registry["C03"].Rule += " Plus concurrent bulk operations by two goroutines on two different collections of one handle (each collection must end as if its goroutine ran alone)."
-	for id, n := range map[string][2]int{"C06": {120, 2000}, "C12": {120, 2000}, "C14": {100, 2000}, "C04": {80, 1500}, "C03": {150, 3000}} {
+	for id, n := range map[string][2]int{"C06": {120, 2000}, "C12": {120, 2000}, "C14": {100, 2000}, "C04": {80, 1500}, "C03": {150, 3000}, "C05": {100, 2000}} {
 		core.Registry[id].Uses = append(core.Registry[id].Uses, core.Use{E: eConc, Quick: n[0], Thorough: n[1]})
 		core.Registry[id].Rule += " Plus concurrent histories (contended caller-supplied ids, concurrent deletes of one id, sorted read-modify-write bulk updates whose selection depends on the value they change) checked for linearizability and audited at quiescence."
 	}
